@@ -95,6 +95,8 @@ LISTING_SAMPLES = [
     b'a\\\\b\r\nclever"script\r\n',
     b'ACTIVE\r\nplain name\r\n"r" ACTIVE\r\n',
     b'"a b"\r\n"{3}"\r\n"OK"\r\n',
+    # names sent as literals (the payload line does not start with a quote) that contain quoted words, one even followed by ACTIVE
+    b'my "old" rules\r\ncopy of "main" ACTIVE\r\n"real" ACTIVE\r\n',
 ]
 
 
